@@ -9,7 +9,10 @@ from core import impl as I
 
 ID = "C01"
 LEAN_MODULES = ["AcnProofs.C01", "AcnProofs.C01Assemble", "AcnProofs.Lemmas.EventCorePilots", "AcnProofs.Lemmas.EventCoreSimFail",
-                "AcnProofs.Lemmas.EventCoreStep", "AcnProofs.Lemmas.EventCoreAssemble"]
+                "AcnProofs.Lemmas.EventCoreStep", "AcnProofs.Lemmas.EventCoreAssemble",
+                # interrupted / saved / resumed runs (a module of its own: the ResumeRun lemma family of C09 and the
+                # EventCoreSim family of C01 declare the same projection names)
+                "AcnProofs.C01Resume"]
 TIE_MODULES = ["AcnProofs.Lemmas.CodeTieQueue", "AcnProofs.Lemmas.CodeTieQueueOps", "AcnProofs.Lemmas.CodeTieEvseOps", "AcnProofs.Lemmas.CodeTieNetOps", "AcnProofs.Lemmas.CodeTieSimEvent", "AcnProofs.Lemmas.CodeTieSimEventNet"]
 DRIVER = "drv_C01"
 REQUIRED_THEOREMS = [
@@ -29,13 +32,21 @@ REQUIRED_THEOREMS = [
     # any split / insertion order of the events between the constructor and later add_events; run() called again
     "Acn.EventCore.foldl_push_ok", "Acn.EventCore.assembled_inv", "Acn.Sim.runStages_replicate_nil",
     "Acn.C01.run_terminates_assembled", "Acn.C01.sim_assembled_heap_C01",
+    # interrupted (the scheduler raises in period k), possibly saved through JSON, and resumed — once or twice
+    "Acn.C01Resume.uninterrupted_completed", "Acn.C01Resume.exactly_once_across_resume",
+    "Acn.C01Resume.exactly_once_across_resume_json", "Acn.C01Resume.exactly_once_across_resume_json_text",
+    "Acn.C01Resume.exactly_once_across_two_resumes", "Acn.C01Resume.exactly_once_across_two_resumes_json_first",
 ]
 BUDGET = {"quick": 1200, "thorough": 15000, "search": 8000}
 TRUSTED = ["CPython heapq: heappop returns a <-minimal entry and keeps the rest (which one among equal "
            "(timestamp, precedence) keys is left open by the theorems; the correspondence canonicalises ties)",
            "dict insertion order, numpy slicing/zeros/sum as used by simulator.py",
            "session ids identify EV objects (the model's events refer to sessions by id)"]
-ASSUMPTIONS = ["Valid S R: distinct session ids, registered stations, 0 <= arrival < departure, sessions on one "
+ASSUMPTIONS = ["interrupted runs: the interruption is an exception out of scheduler.run() (any class); the algorithm object "
+               "handed to update_scheduler after a JSON load is the one that was attached before (its own state is its own "
+               "business: C09); the resume theorems (AcnProofs/C01Resume.lean) are about the canonical queue — the heap's tie "
+               "order across a resume is covered by the correspondence (model run over heapQ)",
+               "Valid S R: distinct session ids, registered stations, 0 <= arrival < departure, sessions on one "
                "station pairwise non-overlapping (back-to-back allowed), recompute timestamps >= 0",
                "the scheduler parameter does not raise and only returns schedules the EVSEs accept "
                "(otherwise run() aborts; the abort itself — class and period — is covered by the correspondence)",
@@ -50,7 +61,9 @@ ASSUMPTIONS = ["Valid S R: distinct session ids, registered stations, 0 <= arriv
 RULE = ("scenario = 1-6 stations of mixed EVSE classes (with/without an aggregate constraint), 0-25 sessions laid "
         "out per station with gaps in {0,0,0,1,2,3} (half of all reuse back-to-back), arrivals from a small range, "
         "shuffled queue insertion order, 0-4 extra recompute events, period in {0.5,1,5,15}, max_recompute in "
-        "{None,1,2,5}, scheduler in {scripted multi-period, empty, real algorithms (oracle only)}; 20% malformed "
+        "{None,1,2,5}, scheduler in {scripted multi-period, empty, real algorithms (uncontrolled / sorted fcfs, edf / round "
+        "robin: oracle AND C07's composition model — the modelled algorithm inside the simulator model, drv_C01 'sorted' — for "
+        "valid layouts whose events are all handed over in time; outside that domain oracle only)}; 20% malformed "
         "(overlap, unknown station, departure<=arrival, invalid pilot, bad schedules, scheduler crash, min_rate>0); "
         "~55% of the valid scenarios (and 30% of the malformed ones) are ASSEMBLED differently from "
         "Simulator(net, algo, EventQueue(all events)).run(): queue empty at construction and filled afterwards "
@@ -63,7 +76,18 @@ RULE = ("scenario = 1-6 stations of mixed EVSE classes (with/without an aggregat
         "other sessions, longer or shorter): any non-empty subset of {the EventQueue instance, the network, the "
         "scheduler, the EV objects after EV.reset()}; every simulation of a case is judged by the same oracle and "
         "compared with its own model run; "
-        "thorough adds every layout with <=3 sessions on <=2 stations within horizon 5 (every 3rd of them fed to an "
+        "every 12th generator step is an INTERRUPTED scenario (valid layout, stations registered in non-alphabetical id order "
+        "at pairwise different voltages, 35% shifted so that period 0 holds an event, 15% real algorithms): the scheduler "
+        "raises once in a period of every available kind (arrival, departure, back-to-back hand-over, arrival+departure, "
+        "recompute only, quiet, the first event period / period 0, the LAST period) and the simulation is completed by run() "
+        "on the same object or through to_json -> Simulator.from_json -> update_scheduler -> run() (core.simcase."
+        "run_impl_resume_json), plus runs interrupted TWICE (each hand-over either way); judged: every clause of C01 on the "
+        "completed simulation, and on every aborted state event_history = exactly the events with timestamp <= k and the "
+        "queue = exactly the later plug-ins / recomputes + the unplugs of the connected sessions (nothing to replay, no "
+        "follow-up lost), no session lost by the loader; aborted states and the final state compared with the model (heap "
+        "queue, resumed with the script that still fails later; real algorithms: the uninterrupted composition model); "
+        "thorough adds every period as crash point (both ways) and every pair of event periods (double, through JSON) on every "
+        "12th valid small-scope layout, and every layout with <=3 sessions on <=2 stations within horizon 5 (every 3rd of them fed to an "
         "empty queue after construction, every 5th preceded by a simulation on the same queue object); "
         "non-trivial = valid layout with >=2 sessions and (back-to-back reuse or two events in one period); "
         "distinct by hash of the case")
@@ -338,11 +362,155 @@ def vary(rng, case):
     return case
 
 
+# ---- interrupted / saved / resumed runs
+#
+# case["resume"] = {"crashes": [{"k": period, "via": "json" | "run"}, ...]}: the scheduler raises once in each period k
+# (SchedulerFailure out of schedule(): `Hooks.fail_at`); every time run() aborts the simulation is continued — "run": run()
+# again on the same object; "json": to_json -> Simulator.from_json -> update_scheduler(the same algorithm object) -> run()
+# (core.simcase.run_impl_resume / run_impl_resume_json; the n-th abort uses the n-th entry, ascending k).
+# (case["resume"] = True is the older form: a `fail` entry of the script, run() called again.)
+
+
+def _non_alphabetical(rng, case):
+    """register the stations in an order that is NOT the sorted order of their ids, at pairwise different voltages
+    (anything that re-sorts stations on the way through JSON shows up as a session on the wrong station)"""
+    sts = case["stations"]
+    if len(sts) < 2:
+        return
+    ids = [st["id"] for st in sts]
+    if ids == sorted(ids):
+        pool = ["S9", "S10", "S2", "Sb", "SA", "S07"]
+        ren = dict(zip(ids, pool))
+        for st in sts:
+            st["id"] = ren[st["id"]]
+        for x in case["sessions"]:
+            x["station"] = ren.get(x["station"], x["station"])
+        for key in ("default",):
+            if case["sched"].get(key):
+                case["sched"][key] = [[ren.get(a, a), b] for a, b in case["sched"][key]]
+        for e in case["sched"].get("script", []):
+            if e.get("sched"):
+                e["sched"] = [[ren.get(a, a), b] for a, b in e["sched"]]
+    volts = [208, 240, 120, 277.5, 400, 230]
+    for i, st in enumerate(sts):
+        st["V"] = volts[i % len(volts)]
+
+
+def crash_candidates(case):
+    """the kinds of period in which an interruption is interesting: {kind: [periods]}"""
+    ss = case["sessions"]
+    arr = sorted({x["arrival"] for x in ss})
+    dep = sorted({x["departure"] for x in ss})
+    recs = sorted({int(r) for r in case.get("recomputes", [])})
+    last = max(dep + recs + [0])
+    out = {"arrival": [t for t in arr if t not in dep], "departure": [t for t in dep if t not in arr and t != last],
+           "handover": sorted({a["departure"] for a in ss for b in ss
+                               if a is not b and a["station"] == b["station"] and a["departure"] == b["arrival"]}),
+           "arr+dep": [t for t in arr if t in dep], "last": [last], "first": arr[:1] or recs[:1],
+           "recompute": [t for t in recs if t not in arr and t not in dep],
+           "quiet": [t for t in range(0, last) if t not in arr and t not in dep and t not in recs]}
+    return {k: v for k, v in out.items() if v}
+
+
+def crash_kind(case, k):
+    kinds = [n for n, v in crash_candidates(case).items() if k in v]
+    for pref in ("last", "handover", "arr+dep", "arrival", "departure", "recompute", "quiet"):
+        if pref in kinds:
+            return pref + ("(first_event_period)" if "first" in kinds and pref != "last" else "")
+    return "other"
+
+
+def gen_resume(rng):
+    """One valid scenario (>= 1 session; stations registered in non-alphabetical id order), several cases: a crash
+    point of every available kind — arrival / departure / back-to-back hand-over / arrival+departure / last period /
+    recompute-only / quiet period / period 0 — completed in place or through JSON, and runs interrupted TWICE (both
+    crash points in event periods, each hand-over in place or through JSON)."""
+    real = rng.random() < 0.15
+    for _ in range(30):
+        c = S.gen_case(rng, real_algos=real, max_sessions=rng.choice([3, 6, 10, 14]))
+        if c["sessions"] and S.is_valid_layout(c):
+            break
+    if rng.random() < 0.35:            # something happens in period 0 (a crash there leaves iteration 0 behind)
+        t0 = min(x["arrival"] for x in c["sessions"])
+        for x in c["sessions"]:
+            x["arrival"] -= t0
+            x["departure"] -= t0
+            if x.get("est") is not None:
+                x["est"] -= t0
+        c["recomputes"] = [max(0, int(r) - t0) for r in c["recomputes"]]
+        for e in c["sched"].get("script", []):
+            e["t"] = max(0, e["t"] - t0)
+        if c["sched"].get("script"):
+            by_t = {}
+            for e in c["sched"]["script"]:
+                by_t[e["t"]] = e                  # one entry per period (the last one wins, as in ScriptedAlgo)
+            c["sched"]["script"] = [by_t[t] for t in sorted(by_t)]
+    _non_alphabetical(rng, c)
+    if not real and rng.random() < 0.5:
+        c["max_recompute"] = rng.choice([1, 1, 2])       # the scheduler also runs in quiet periods
+    cand = crash_candidates(c)
+    picks = []
+    for kind, ts in cand.items():
+        k = rng.choice(ts)
+        if k not in [p[0] for p in picks]:
+            picks.append((k, kind))
+    rng.shuffle(picks)
+    hand = [p for p in picks if p[1] in ("handover", "arr+dep", "last", "first")]
+    picks = (hand + [p for p in picks if p not in hand])[:4]
+    out = []
+    for k, _kind in picks:
+        d = copy.deepcopy(c)
+        d["resume"] = {"crashes": [{"k": k, "via": "json" if rng.random() < 0.65 else "run"}]}
+        out.append(d)
+    ev = sorted({x["arrival"] for x in c["sessions"]} | {x["departure"] for x in c["sessions"]})
+    if len(ev) >= 2:
+        for _ in range(rng.choice([1, 1, 2])):
+            k1, k2 = sorted(rng.sample(ev, 2))
+            d = copy.deepcopy(c)
+            d["resume"] = {"crashes": [{"k": k1, "via": rng.choice(["json", "json", "run"])},
+                                       {"k": k2, "via": rng.choice(["json", "json", "run"])}]}
+            out.append(d)
+    return out
+
+
+def resume_sweep():
+    """thorough tier: every 12th valid small-scope layout, EVERY period 0..last as the crash point, in place and through
+    JSON, and every pair of event periods as a double interruption through JSON; stations registered as S9, S10"""
+    out = []
+    base = [c for c in exhaustive() if c["sessions"] and S.is_valid_layout(c) and "assembly" not in c and "prior" not in c][::12]
+    for j, c in enumerate(base):
+        c = copy.deepcopy(c)
+        c.pop("exhaustive", None)
+        ren = {"S0": "S9", "S1": "S10"}
+        for st in c["stations"]:
+            st["id"] = ren[st["id"]]
+        for x in c["sessions"]:
+            x["station"] = ren[x["station"]]
+        c["sched"] = {"type": "scripted", "default": [["S9", [16.0]], ["S10", [8.0]]], "script": []}
+        c["stations"][0]["V"], c["stations"][1]["V"] = 240, 120
+        last = max(x["departure"] for x in c["sessions"])
+        for k in range(0, last + 1):
+            for via in ("json", "run"):
+                d = copy.deepcopy(c)
+                d["resume"] = {"crashes": [{"k": k, "via": via}]}
+                out.append(d)
+        ev = sorted({x["arrival"] for x in c["sessions"]} | {x["departure"] for x in c["sessions"]})
+        for k1, k2 in itertools.combinations(ev, 2):
+            d = copy.deepcopy(c)
+            d["resume"] = {"crashes": [{"k": k1, "via": "json"}, {"k": k2, "via": ["json", "run"][(j + k1 + k2) % 2]}]}
+            out.append(d)
+    return out
+
+
 def generate(rng, n, tier):
     out = []
     if tier == "thorough":
         out.extend(exhaustive())
+        out.extend(resume_sweep())
     for i in range(n):
+        if i % 12 == 5:
+            out.extend(gen_resume(rng))         # one scenario, 3-6 cases
+            continue
         r = i % 10
         if r in (7, 8):
             c = S.gen_case(rng, malformed=True)
@@ -525,14 +693,98 @@ def run_impl_assembled(case):
     return obs
 
 
+def _resume_chain(case, hooks, crashes):
+    """run(); every time it raises SchedulerFailed the simulation is continued — by run() on the same object, or through
+    to_json / from_json / update_scheduler / run — as the n-th entry of `crashes` (ascending k) says.  Built from the
+    primitives of core.simcase (`run_impl_resume`, `run_impl_resume_json` are the one-crash instances)."""
+    import warnings
+    from acnportal.acnsim import Simulator as _Sim
+    vias = [c["via"] for c in sorted(crashes, key=lambda c: c["k"])]
+    hooks.network_cls = S.JsonLogNetwork
+    del S._JSON_OCC[:]
+    with S.noise_stream(case.get("noise", [])) as ns:
+        sim, ctx = S.build_sim(case, hooks)
+        aborted, missing, loaded = [], [], 0
+        err = S.run_sim(sim)
+        n = 0
+        while err == "SchedulerFailed" and n < len(vias):
+            o = S.observe(sim, ctx, err)
+            o["occ"] = [list(r) for r in S._JSON_OCC]
+            aborted.append(o)
+            if vias[n] == "json":
+                with warnings.catch_warnings():
+                    warnings.simplefilter("ignore")
+                    sim2 = _Sim.from_json(sim.to_json())
+                    sim2.update_scheduler(ctx["scheduler"])
+                by = S._all_evs_of(sim2)
+                ctx = {"network": sim2.network, "scheduler": ctx["scheduler"], "hooks": hooks,
+                       "evs": [by[x["session"]] for x in case["sessions"] if x["session"] in by]}
+                missing = [x["session"] for x in case["sessions"] if x["session"] not in by]
+                sim = sim2
+                loaded += 1
+            err = S.run_sim(sim)
+            n += 1
+        obs = S.observe(sim, ctx, err)
+        obs["occ"] = [list(r) for r in S._JSON_OCC]
+        if aborted:
+            obs["first"] = aborted[0]
+        obs["missing_evs"] = missing
+        obs["via_json"] = loaded > 0
+        obs["noise_draws"] = ns["k"]
+    return obs, aborted
+
+
+def _run_resumed(case):
+    crashes = sorted(case["resume"]["crashes"], key=lambda c: c["k"])
+    hooks = S.Hooks(fail_at={int(c["k"]) for c in crashes})
+    if len(crashes) == 1 and crashes[0]["via"] == "json":
+        obs = S.run_impl_resume_json(case, hooks)          # the shared helper (C02, C05, C09 use the same)
+        aborted = [obs["first"]] if "first" in obs else []
+    elif len(crashes) == 1:
+        obs = S.run_impl_resume(case, hooks)
+        aborted = [obs["first"]] if "first" in obs else []
+    else:
+        obs, aborted = _resume_chain(case, hooks, crashes)
+    obs["aborted"] = aborted
+    if not S.is_modelled(case):
+        obs["infra"] = _infra_of(case)
+    return obs
+
+
+def _infra_of(case):
+    """`Interface.infrastructure_info()` of the scenario's network as the sorted algorithms see it: an input of the
+    MODELLED algorithm (lean/AcnModel/WireSorted.lean); None when the network cannot be built"""
+    import numpy as np
+    try:
+        sim, ctx = S.build_sim(case)
+        info = ctx["scheduler"].interface.infrastructure_info()
+    except Exception:  # noqa: BLE001 - malformed scenario: no model comparison
+        return None
+    ph = np.deg2rad(info.phases)
+    return {"ids": list(info.station_ids),
+            "M": [[float(x) for x in row] for row in info.constraint_matrix],
+            "lims": [float(x) for x in info.constraint_limits],
+            "cos": [float(x) for x in np.cos(ph)], "sin": [float(x) for x in np.sin(ph)],
+            "volt": [float(x) for x in info.voltages],
+            "maxp": [I.enc(float(x)) for x in info.max_pilot], "minp": [float(x) for x in info.min_pilot],
+            "cont": [bool(x) for x in info.is_continuous],
+            "allow": [[I.enc(float(a_)) for a_ in al] for al in info.allowable_pilots]}
+
+
 def run_impl(case):
     if "steps" in case:             # driven through Simulator.step() instead of run()
         return S.run_impl_steps(case)
+    if isinstance(case.get("resume"), dict):     # interrupted once or twice; continued in place or through JSON
+        return _run_resumed(case)
     if case.get("resume"):          # crash/resume: run() is called again after it raised
         return S.run_impl_resume(case)
     if case.get("assembly") or case.get("prior"):
-        return run_impl_assembled(case)
-    return S.run_impl(case)
+        obs = run_impl_assembled(case)
+    else:
+        obs = S.run_impl(case)
+    if not S.is_modelled(case):
+        obs["infra"] = _infra_of(case)
+    return obs
 
 
 def _wire_events(case, ix):
@@ -556,10 +808,68 @@ def _request_one(case):
     return req
 
 
-def model_request(case):
+SORTS = {"fcfs": "fcfs", "edf": "edf", "rr": "fcfs", "uncontrolled": "fcfs"}
+
+
+def sorted_in_domain(case):
+    """Is the scenario within the domain of the full-simulator model WITH the sorted algorithms (SimSorted.lean)?
+    Not: malformed layouts (the model of the algorithms has no counterpart of a run that dies in the event stage with a
+    half-built view), and events handed over after their period has passed (the assembled model exists for scripted
+    schedulers only)."""
+    if S.is_modelled(case) or "steps" in case or not S.is_valid_layout(case) or case.get("malformed"):
+        return False
+    if case.get("assembly") and has_late_event(case):
+        return False
+    return True
+
+
+def _sorted_request(case, infra):
+    """the scenario with its REAL algorithm as a request of lean/AcnModel/WireSortedRd.lean (drv_C01 "sorted"): the
+    modelled sorted algorithm / round robin / uncontrolled baseline as the scheduler of the simulator model"""
+    f2b = S.f2b
+    t = case["sched"]["type"]
+    one = f2b(1.0)
+    return {"algo": "uncontrolled" if t == "uncontrolled" else "rr" if t == "rr" else "greedy", "sort": SORTS[t],
+            "uninterrupted": False, "estimate": False, "inc": f2b(0.1), "period": f2b(I.num(case["period"])),
+            "ramp": {"up": one, "down": one, "inc": one},
+            "infra": {"ids": infra["ids"], "M": [[f2b(x) for x in r] for r in infra["M"]],
+                      "lims": [f2b(x) for x in infra["lims"]], "cos": [f2b(x) for x in infra["cos"]],
+                      "sin": [f2b(x) for x in infra["sin"]], "volt": [f2b(x) for x in infra["volt"]],
+                      "maxp": [f2b(I.num(x)) for x in infra["maxp"]], "minp": [f2b(x) for x in infra["minp"]],
+                      "cont": infra["cont"], "allow": [[f2b(I.num(x)) for x in al] for al in infra["allow"]]},
+            "calls": [],
+            "simrun": {"stations": [{"id": st["id"], "kind": I.kind_wire(st["kind"]), "V": f2b(I.num(st["V"]))}
+                                    for st in case["stations"]],
+                       "evs": [I.ev_wire(s_) for s_ in case["sessions"]],
+                       "recomputes": [[int(r), f"r{i}"] for i, r in enumerate(case.get("recomputes", []))],
+                       "max_recompute": case.get("max_recompute"), "period": f2b(I.num(case["period"])),
+                       "noise": [f2b(float(v)) for v in case.get("noise", [])]}}
+
+
+def model_request(case, obs=None):
     # the model runs over the transcription of CPython's array heap: exact tie order
     if "steps" in case:
         return S.model_request(case)
+    if not S.is_modelled(case):
+        # a REAL algorithm: C07's composition model (modelled algorithm inside the simulator model, canonical queue),
+        # run uninterrupted; an interrupted run of the implementation must complete to the same simulation
+        if not sorted_in_domain(case) or not isinstance(obs, dict) or obs.get("infra") is None:
+            return None
+        req = {"sorted": _sorted_request(case, obs["infra"])}
+        pc = prior_case(case)
+        if pc is not None and sorted_in_domain(pc):
+            req["prior"] = {"sorted": _sorted_request(pc, obs["infra"])}
+        return req
+    if isinstance(case.get("resume"), dict):
+        # the scheduler raises once in each crash period; run() is called again from the state it left.  The in-place and
+        # the JSON resume are compared with the SAME model run (C01Resume.exactly_once_across_resume_json: the decoded
+        # simulator IS the aborted one).  n-th resumed call: the script that still fails in the later crash periods.
+        ks = sorted(int(c["k"]) for c in case["resume"]["crashes"])
+        req = S.model_request(case, fail_at=ks, resume=True, queue="heap")
+        if req is not None and len(ks) > 1:
+            chain = [S.model_request(case, fail_at=ks[j:])["sched"] for j in range(1, len(ks))]
+            req["resume"] = chain + [req["resume"]]
+        return req
     if case.get("resume"):
         return S.model_request(case, resume=True, queue="heap")
     req = _request_one(case)
@@ -587,9 +897,54 @@ def _fresh_eyes(case, obs, model):
     return o
 
 
+def _compare_sorted(case, obs, model):
+    """a REAL algorithm: the implementation against the composition model (canonical queue: ties canonicalised)"""
+    diffs = []
+    pc = prior_case(case)
+    if pc is not None and obs.get("prior") is not None and (model.get("prior") or {}).get("sorted") is not None:
+        po, pm = obs["prior"], model["prior"]["sorted"]
+        if not (po["err"] is not None and po["err"] != pm["err"]):
+            diffs += ["earlier simulation: " + d for d in S.compare(pc, po, pm)]
+    if obs.get("main_skipped"):
+        return diffs[:12]
+    m = model["sorted"]
+    if m is None:
+        return diffs + ["the model did not answer the simulation with the modelled algorithm"]
+    fired = [o["iter"] for o in obs.get("aborted", [])]
+    if fired:
+        # an interrupted run: the COMPLETED simulation equals the uninterrupted model run; the scheduler was invoked once
+        # more in every period in which it raised
+        m = dict(m, invoked=[x for t in m["invoked"] for x in ([t, t] if t in fired else [t])])
+    if obs["err"] is not None and obs["err"] != m["err"]:
+        # raised inside the algorithm with an error class the composition model names differently: error parity of the
+        # sorted algorithms is C07/C08's correspondence; C01's oracle still judges the run (run_raised)
+        return diffs[:12]
+    o = {k: v for k, v in obs.items() if k != "first"}
+    diffs += S.compare(case, _fresh_eyes(case, o, m), m)
+    if "twin" in obs:
+        diffs += ["original simulator (run after its deep copy): " + d
+                  for d in S.compare(case, _fresh_eyes(case, obs["twin"], m), m)]
+    return diffs[:12]
+
+
 def compare(case, obs, model):
     if "steps" in case:
         return S.compare(case, obs, model, exact_ties=False)
+    if "sorted" in model:
+        return _compare_sorted(case, obs, model)
+    if isinstance(case.get("resume"), dict):
+        diffs = S.compare(case, obs, model, exact_ties=True)
+        ao, am = obs.get("aborted", []), model.get("aborted", [model["first"]] if "first" in model else [])
+        if len(ao) != len(am):
+            diffs.append(f"interruptions: the implementation aborted {len(ao)} time(s) (periods {[o['iter'] for o in ao]}), "
+                         f"the model {len(am)} time(s) (periods {[m['iter'] for m in am]})")
+        for j, (o, m) in enumerate(zip(ao, am)):
+            if j == 0:
+                continue            # the first aborted state is compared as "first" above
+            o1 = dict(o)
+            o1.pop("noise_draws", None)
+            S.compare_state(case, o1, S.decode_model(m), diffs, tag=f"aborted run {j + 1}: ", exact_ties=True)
+        return diffs[:12]
     diffs = []
     pc = prior_case(case)
     if pc is not None:
@@ -639,9 +994,60 @@ def oracle(case, obs):
     if pc is not None:
         what = "simulation re-using the " + "/".join(case["prior"].get("reuse", [])) + " object(s) of a finished one: "
     fails += [{"kind": f["kind"], "detail": what + f["detail"]} for f in oracle_one(case, obs)]
+    if isinstance(case.get("resume"), dict) and in_scope(case):
+        fails += oracle_resume(case, obs)
     if "twin" in obs:
         fails += [{"kind": f["kind"], "detail": what + "original simulator, run after its deep copy: " + f["detail"]}
                   for f in oracle_one(case, obs["twin"])]
+    return fails
+
+
+def _expected_events(case, k):
+    """(event_history entries, pending entries) as multisets after the events of period k have been processed and
+    nothing else of the period has happened (the state an abort inside the scheduler leaves)"""
+    ss = case["sessions"]
+    recs = [int(r) for r in case.get("recomputes", [])]
+    hist = [[x["arrival"], "Plugin", x["session"]] for x in ss if x["arrival"] <= k] + \
+           [[x["departure"], "Unplug", x["session"]] for x in ss if x["departure"] <= k] + \
+           [[r, "Recompute", ""] for r in recs if r <= k]
+    pend = [[x["arrival"], "Plugin", x["session"]] for x in ss if x["arrival"] > k] + \
+           [[x["departure"], "Unplug", x["session"]] for x in ss if x["arrival"] <= k < x["departure"]] + \
+           [[r, "Recompute", ""] for r in recs if r > k]
+    return sorted(hist), sorted(pend)
+
+
+def oracle_resume(case, obs):
+    """C01 across interruptions: what every ABORTED state must look like so that nothing is replayed and nothing is
+    lost (the clauses about the COMPLETED simulation are `oracle_one` on the final observation), and what a JSON
+    hand-over must preserve."""
+    fails = []
+    ks = sorted(int(c["k"]) for c in case["resume"]["crashes"])
+    ab = obs.get("aborted", [])
+    its = [a["iter"] for a in ab]
+    if any(a["err"] != "SchedulerFailed" for a in ab):
+        return fails                     # aborted by something else: judged as run_raised / premise by oracle_one
+    if its != sorted(set(its)) or any(t not in ks for t in its):
+        fails.append({"kind": "abort_period", "detail": f"run() aborted in periods {its}; the scheduler raises (once each) in {ks}"})
+        return fails
+    if obs["err"] == "SchedulerFailed":
+        fails.append({"kind": "resumed_run_raised", "detail": f"the scheduler raised once in each of {ks}; run() aborted in {its} and "
+                      f"the last run() still ends with SchedulerFailed in period {obs['iter']}"})
+    for a in ab:
+        k = a["iter"]
+        hist, pend = _expected_events(case, k)
+        if sorted(a["event_history"]) != hist:
+            fails.append({"kind": "aborted_history", "detail": f"run() aborted in period {k}: event_history {a['event_history']}, "
+                          f"expected exactly the events with timestamp <= {k}: {hist}"})
+        if sorted(a["pending"]) != pend:
+            extra = [e for e in a["pending"] if e not in pend]
+            lost = [e for e in pend if e not in a["pending"]]
+            fails.append({"kind": "aborted_queue", "detail": f"run() aborted in period {k}: the queue holds {a['pending']}; "
+                          f"not expected (would be replayed / out of place): {extra}; missing (lost): {lost}"})
+    if obs.get("missing_evs"):
+        fails.append({"kind": "session_lost_in_json", "detail": f"sessions {obs['missing_evs']} are in none of ev_history / "
+                      f"stations / pending events of the simulator loaded from JSON"})
+    if obs.get("via_json") and obs.get("same_object"):
+        fails.append({"kind": "json_same_object", "detail": "from_json returned the simulator object that was dumped"})
     return fails
 
 
@@ -651,6 +1057,8 @@ def oracle_one(case, obs):
     fails = []
     ss = case["sessions"]
     recs = sorted(case.get("recomputes", []))
+    if isinstance(case.get("resume"), dict) and obs["err"] == "SchedulerFailed":
+        return []        # reported by oracle_resume (resumed_run_raised / abort_period)
     if obs["err"] in PREMISE_ERRORS:
         return []        # the scheduler failed or returned a schedule the EVSEs refuse: premise of C01 not met
     if obs["err"] is not None:
@@ -738,6 +1146,20 @@ def features(case, obs):
          f"constraint={'yes' if case.get('constraint') else 'no'}"]
     if case.get("exhaustive"):
         f.append("exhaustive_small_scope")
+    if isinstance(case.get("resume"), dict):
+        cr = sorted(case["resume"]["crashes"], key=lambda c: c["k"])
+        ab = obs.get("aborted", [])
+        f.append(f"resume:crash_points={len(cr)}/fired={len(ab)}")
+        f.append("resume:via=" + "+".join(c["via"] for c in cr))
+        for c in cr:
+            f.append("resume:crash_period=" + crash_kind(case, c["k"]) + (":fired" if c["k"] in [a["iter"] for a in ab] else ":not_invoked"))
+        if any(c["k"] == 0 for c in cr) and any(a["iter"] == 0 for a in ab):
+            f.append("resume:aborted_in_period_0")
+        ids = [st["id"] for st in case["stations"]]
+        f.append("resume:station_ids_registered_in_sorted_order=" + str(ids == sorted(ids)))
+    if not S.is_modelled(case):
+        f.append("real_algo_model=" + ("sorted_composition" if sorted_in_domain(case) and obs.get("infra") is not None
+                                       else "outside_domain(oracle_only)"))
     if case.get("assembly"):
         asm = assembly_of(case)
         f.append(f"assembly={case['assembly'].get('mode', 'custom')}")
